@@ -580,8 +580,10 @@ fn deser_type_generic<'frame, 'result, StrT: Into<Cow<'result, str>>>(
                 .map_err(|err| CqlTypeParseError::UdtFieldsCountParseError(err.into()))?
                 .into();
 
+            // Each field occupies at least 4 bytes (a [string] name and a type id):
+            // do not reserve more than the buffer can hold.
             let mut field_types: Vec<(Cow<'result, str>, ColumnType)> =
-                Vec::with_capacity(fields_size);
+                Vec::with_capacity(fields_size.min(buf.len() / 4));
 
             for _ in 0..fields_size {
                 let field_name =
@@ -604,7 +606,9 @@ fn deser_type_generic<'frame, 'result, StrT: Into<Cow<'result, str>>>(
             let len: usize = types::read_short(buf)
                 .map_err(|err| CqlTypeParseError::TupleLengthParseError(err.into()))?
                 .into();
-            let mut types = Vec::with_capacity(len);
+            // Each element type occupies at least 2 bytes (a type id):
+            // do not reserve more than the buffer can hold.
+            let mut types = Vec::with_capacity(len.min(buf.len() / 2));
             for _ in 0..len {
                 types.push(deser_type_generic(buf, read_string, read_custom_type)?);
             }
